@@ -142,7 +142,7 @@ Proof.
   destruct rb as [b|eb]; [|intros H; inversion H; subst; exact Hdb].
   destruct ((0 <? c_max_balance cfg) && (c_max_balance cfg <? add64 b a)); [finq|].
   destruct wb as [d l m ac n]. cbn [w_db w_ln] in *. sx.
-  destruct (l_createerr l); [sx; finq|]. sx.
+  destruct (l_createerr l || _); [sx; finq|]. sx.
   cbn [mq_amount mq_id].
   destruct (sql_int_ok a && negb (mem id (map mq_id (d_mq d)))); sx; finq.
 Qed.
